@@ -663,6 +663,9 @@ func (q *QWorld) CloseQueue() bool {
 	if err == nil {
 		flushed = q.Completed
 	}
+	if flushed < len(q.Events) || (q.lay != nil && len(q.lay.evStart) > flushed) {
+		q.lay = nil // the layout model is rebuilt without the dropped events
+	}
 	q.Events = q.Events[:flushed]
 	q.Completed = flushed
 	q.FlushedLo = flushed
